@@ -125,6 +125,12 @@ def confirm(replay, verbose=False):
     old = mcx._worker_mc
     mcx._worker_mc = mc
     try:
+        if replay.get("family") == "recover-under-prefs":
+            v3, _, _ = work_rup(("__rup__", [tuple(replay["pair"])]))
+            if verbose:
+                for k, w, _ in v3:
+                    print(" ", k, "—", w)
+            return {k for k, _, _ in v3}
         compute_baseline(mc)
         nrec = len(RECOVER) if replay["ops"][-len(RECOVER):] == RECOVER else 0
         res = run_isolated(mc, replay["setup"], [replay["ops"]])
@@ -369,6 +375,11 @@ def main(tier):
         fresh_needed = family in ("history", "preference")
         for i in range(0, len(cases), step):
             jobs.append((family, setup, cases[i:i + step], rec) if not fresh_needed else ("__fresh__", family, setup, cases[i:i + step], rec))
+    if not only or only == "recover-under-prefs":
+        pairs = [(pi, fi) for pi in range(len(RUP_PREFS)) for fi in range(len(RUP_FAILS))]
+        run.count("cases_recover-under-prefs", len(pairs))
+        for i in range(0, len(pairs), 12):
+            jobs.append(("__rup__", pairs[i:i + 12]))
     for viol, counts, nontriv in mcx.pmap(_dispatch, jobs):
         run.merge_violations(viol)
         run.merge_counts(counts)
@@ -382,7 +393,9 @@ def main(tier):
              "(incl. the library's own marker attributes); %d token texts x 5 token kinds x 9 hosts x 4 mathvariants; nesting ladders (12 constructs x depths 10, 24, 40, 300%s) and wide rows; navigation: "
              "%d commands x 5 expressions (from the root and after ZoomInAll), key codes x 16 modifier sets, set_navigation_node over ids x offsets incl. usize::MAX, node-from-braille over "
              "positions x 2 codes; a fixed %d-command navigation walk over every depth-1 term, trigger term and deviation with missing/empty parts in 3 navigation modes; all call sequences of length <= %d over a 26-class alphabet (each in a fresh session); every preference name x 19 values and same-name pairs; "
-             "trigger terms under 9 braille code names; nested intent attributes (17 outer x 13 inner values x 4 placements x both recovery settings). After every case a valid expression is set and compared with the fresh-session results. "
+             "trigger terms under 9 braille code names; nested intent attributes (17 outer x 13 inner values x 4 placements x both recovery settings). After every case a valid expression is set and compared with the fresh-session results; "
+             "and 27 failing call sequences (every entry point without an expression, bad arguments, failed set_mathml) under 7 NON-default preference sets, each followed by a valid "
+             "expression with speech, plain and highlighted braille, navigation, positions and the preferences read back, compared with the same session without the failing calls. "
              "distinct_nontrivial = distinct (family, label class, outcome signature) combinations"
              % (len(ELEMENTS), len(TEXTS), "" if tier == "quick" else ", 1000, 3000", len(c11.FULL) + 12, len(NAV_WALK), 3 if tier == "quick" else 4),
         assumptions=["'fails to terminate' is checked as 'no case exceeds the 15 s watchdog'",
@@ -410,5 +423,70 @@ def work_fresh(item):
     return viol, counts, nontriv
 
 
+# ---------------------------------------------------------------------------------------------
+# "after an error the library is still usable: setting a valid expression next yields exactly the results of a fresh session" - under
+# NON-default preferences and for every entry point that can fail, incl. the ones that fail because no expression has been set yet
+
+RUP_PREFS = [[["pref", "BrailleNavHighlight", "All"]], [["pref", "BrailleNavHighlight", "Off"]], [["pref", "BrailleNavHighlight", "FirstChar"], ["pref", "BrailleCode", "UEB"]],
+             [["pref", "Language", "es"], ["pref", "SpeechStyle", "SimpleSpeak"]], [["pref", "TTS", "SSML"], ["pref", "Bookmark", "true"]], [["pref", "NavMode", "Character"], ["pref", "Overview", "true"]],
+             [["pref", "IntentErrorRecovery", "Error"], ["pref", "Verbosity", "Terse"]]]
+RUP_FAILS = [[["nodeat", 0]], [["nodeat", "MAX"]], [["brpos"]], [["navid"]], [["navmml"]], [["braille", ""]], [["braille", "x"]], [["navbraille"]], [["speech"]], [["overview"]], [["nav", "ZoomIn"]],
+             [["nav", "NoSuchCommand"]], [["key", 39, False, False, False, False]], [["setnav", "x", 0]], [["mathml", "<math><mi>x</mi"]], [["mathml", "<svg/>"]], [["mathml", ""]],
+             [["mathml", "<math><mfrac><mi>x</mi></mfrac></math>"]], [["pref", "Pitch", "abc"]], [["pref", "Nope", "1"]], [["pref", "Language", "klingon"]], [["rules_dir", "/nonexistent"]],
+             [["mathml", VALID], ["setnav", "no-such-id", 0]], [["mathml", VALID], ["nodeat", "MAX"]], [["mathml", VALID], ["nav", "MoveLastLocation"], ["nav", "MoveLastLocation"]],
+             [["mathml", VALID], ["braille", "no-such-id"]], [["mathml", VALID], ["mathml", "<math><mi>x</mi"], ["speech"], ["nodeat", 1], ["brpos"]]]
+
+
+def rup_observe(prefs):
+    return [["mathml", VALID], ["speech"], ["braille", ""], ["navid"], ["braille", {"r": -1, "k": 0}], ["nav", "ZoomIn"], ["navid"], ["braille", {"r": -1, "k": 0}], ["brpos"], ["overview"]] + \
+           [["getpref", p[1]] for p in prefs]
+
+
+def work_rup(item):
+    _, pairs = item
+    mc = mcx.worker_mc()
+    base = [["rules_dir", mcx.RULES], ["pref", "TTS", "none"]]
+    cases, meta = [], []
+    for pi, fi in pairs:
+        prefs, fails = RUP_PREFS[pi], RUP_FAILS[fi]
+        for variant in ("with", "without"):
+            pre = base + prefs + (fails if variant == "with" else [])
+            ops = list(pre)
+            for o in rup_observe(prefs):
+                o = [({"r": len(ops) - 1, "k": x["k"]} if isinstance(x, dict) and x.get("r") == -1 else x) for x in o]
+                ops.append(o)
+            cases.append(ops)
+            meta.append((pi, fi, variant, len(pre)))
+    _, res = mc.run_cases([], cases, fresh=True, keep_going=True, per_case_timeout=15.0)
+    viol, counts, nontriv = [], {"evaluations": 0, "calls": 0, "panics": 0, "errors": 0}, []
+    for k in range(0, len(cases), 2):
+        (pi, fi, _, n1), (_, _, _, n0) = meta[k], meta[k + 1]
+        r1, r0 = res[k], res[k + 1]
+        counts["evaluations"] += 1
+        counts["calls"] += len(r1)
+        label = "rup:" + "+".join(p[1] + "=" + p[2] for p in RUP_PREFS[pi]) + ":" + ">".join(opclass(o) for o in RUP_FAILS[fi])
+        replay = {"family": "recover-under-prefs", "pair": [pi, fi], "label": label}
+        bad = next((x for x in r1 if x[0] in ("p", "abort", "timeout")), None)
+        if bad is not None:
+            counts["panics"] += 1
+            if bad[0] == "p":
+                i = r1.index(bad)
+                viol.append((f"C08|panic|{opclass(cases[k][i])}|{source_line(bad[1])}", f"recover-under-prefs {label}: {opclass(cases[k][i])} panicked at {bad[1]}: {short(bad[2] if len(bad) > 2 else '', 120)}", replay))
+            continue
+        if not any(x[0] == "e" for x in r1[len(RUP_PREFS[pi]) + 2:n1]):
+            continue                              # nothing failed: nothing to recover from
+        counts["errors"] += 1
+        a, b_ = [norm_ids(x[:2]) for x in r1[n1:]], [norm_ids(x[:2]) for x in r0[n0:]]
+        nontriv.append(hash(("rup", pi, fi, json.dumps(a, ensure_ascii=False))))
+        if a != b_:
+            j = next(i for i, (x, y) in enumerate(zip(a, b_)) if x != y)
+            what = opclass(cases[k][n1 + j])
+            viol.append((f"C08|not-recovered|recover-under-prefs|{what}|{'+'.join(p[1] for p in RUP_PREFS[pi])}",
+                         f"recover-under-prefs {label}: after the failing call(s), {what} on a valid expression returns {short(a[j], 110)}, the same session without the failing call(s) {short(b_[j], 110)}", replay))
+    return viol, counts, nontriv
+
+
 def _dispatch(job):
+    if job[0] == "__rup__":
+        return work_rup(job)
     return work_fresh(job) if job[0] == "__fresh__" else work(job)
